@@ -39,33 +39,6 @@ Definition check_c14 (c : rcase) : list string :=
      | None => []
      end)) (c_runs c)).
 
-(* ---- multiarch stage: build.NewMultiArch + BuildPackageLists ------------------
-   What each architecture's repositories offer as (name, version) pairs, how they
-   were reached, and the install list each architecture got (None = the build
-   failed). Judged by the verified validator foreign_check. *)
-Record mcase := {
-  m_archs : list (string * list (string * string));
-  m_transport : string;
-  m_obs : list (string * option (list (string * string))) }.
-
-Definition nv_pkg (x : string * string) : pkg :=
-  {| p_name := fst x; p_version := snd x; p_origin := ""; p_deps := []; p_provides := []; p_install_if := [];
-     p_prio := 0%N; p_pin := ""; p_repo := "" |}.
-
-Definition check_multiarch (c : mcase) : list string :=
-  nodup string_dec (flat_map (fun ao =>
-    match snd ao with
-    | None => []
-    | Some l =>
-        let own := match List.find (fun au => String.eqb (fst au) (fst ao)) (m_archs c) with Some au => snd au | None => [] end in
-        let others := List.map (fun au => List.map nv_pkg (snd au))
-                        (List.filter (fun au => negb (String.eqb (fst au) (fst ao))) (m_archs c)) in
-        tag_if (negb (forallb (fun x => existsb (fun y => String.eqb (fst x) (fst y) && String.eqb (snd x) (snd y)) own) l))
-               "viol:member-not-from-own-repositories" ++
-        List.map (fun t => String.append "viol:" (String.append t "/multiarch-build"))
-                 (nodup string_dec (foreign_check others (List.map nv_pkg l)))
-    end) (m_obs c)).
-
 (* ==== the wiring (Model/MultiArch.v) against the real NewMultiArch / ResolveWorld ====
    multiarch stage: the architectures as handed to NewMultiArch, the index
    objects each architecture's APK resolves with (identities assigned by the
